@@ -157,7 +157,7 @@ class C17(Check):
             "side reuse path on the explored grids). After every evaluation scheme, surpluses per component grid and interpolated densities at "
             "seeded points are compared. A state is the refined structure with the data/option class; distinct_nontrivial counts distinct "
             "refined structures on which the twins were compared")
-    expected_probes = ["twin_compared", "grid_ge_default_threshold", "rebalancing", "new_lmax", "standard_combi_history"]
+    expected_probes = ["twin_compared", "grid_ge_default_threshold", "rebalancing", "new_lmax", "standard_combi_history", "threshold_inside_the_size_range"]
     assumptions = ["analytic runs are compared with a bound of 1e-8 relative to the largest surplus (the linear solves amplify rounding), numeric-entry runs with 2e-2 (calibrated: nquad on the kinked hat products is accurate to about 2e-3)",
                    "all twins receive identical environment answers and the same global PRNG stream"]
     excluded_configs = ["numeric matrix entries in 3-D or beyond 30 grid points (scipy.nquad per entry: minutes per run)",
@@ -177,7 +177,7 @@ class C17(Check):
                "masslumping": r.random() < 0.3, "lambd": r.choice([0.0, 0.01, 0.1]), "numeric": numeric,
                "margin": r.choice([0.3, 0.5, 0.9]), "rebalancing": r.random() < 0.3, "version": 6,
                "p_zero": r.choice([0.0, 0.3, 0.6]), "p_tie": r.choice([0.0, 0.2]),
-               "lmin": 1, "lmax": 2 if numeric else r.choice([2, 2, 3]), "evals": r.randint(1, 2 if numeric else 4),
+               "lmin": 1, "lmax": 2 if numeric else r.choice([2, 2, 3]), "evals": r.randint(1, 2 if numeric else (4 if r.random() < 0.7 else 7)),
                "max_intervals": 6 if numeric else (24 if tier == "quick" else 40), "recalc": None, "clock_jumps": False,
                "big": (not numeric) and r.random() < (0.03 if tier == "quick" else 0.1), "pre_scaled": r.random() < 0.7}
         if cfg["big"]:       # reach component grids beyond the default threshold of 200 points without the hook
@@ -264,6 +264,32 @@ class C17(Check):
             self.compare(ctx, sig, A, C, "small_grid_equals_large_grid_implementation", "default threshold vs small-grid implementation", tol)
             _, E = run(True, 1)
             self.compare(ctx, dict(sig, threshold="moved"), A, E, "reuse_on_equals_reuse_off", "reuse on with the right-hand-side reuse path forced (threshold 1) vs reuse off", tol, rhs_threshold=1)
+            if not c.get("standard"):
+                # a threshold in the middle of the grid sizes of this history: component grids cross it in both directions from step
+                # to step (a grid coarsened after an lmax raise drops below it, grows back later), so entries of the caches are
+                # written by one implementation and read by the other
+                from simcore.seeds import H
+                mid = (6, 10, 16, 24, 40)[int(H(rk, "mid_threshold") * 5) % 5]
+                # learnt from the reuse-off execution of the same history: the threshold that the sizes of the component grids
+                # (per level vector, from evaluation to evaluation) cross most often, downward crossings counting double
+                seqs = {}
+                for (_, su, _, _) in A:
+                    for k2, v2 in su.items():
+                        seqs.setdefault(k2, []).append(int(v2.size))
+                best = (0, mid)
+                for T in sorted(set(x for q in seqs.values() for x in q)):
+                    sc = 0
+                    for q in seqs.values():
+                        side = [x >= T for x in q]
+                        sc += sum((2 if (u and not v) else 1) for u, v in zip(side, side[1:]) if u != v)
+                    if sc > best[0] or (sc == best[0] and sc > 0 and H(rk, "mid_tie", T) < 0.5):
+                        best = (sc, T)
+                mid = best[1]
+                if best[0] > 0:
+                    ctx.probe("grids_cross_the_threshold")
+                _, F = run(True, mid)
+                ctx.probe("threshold_inside_the_size_range")
+                self.compare(ctx, dict(sig, threshold="inside"), A, F, "reuse_on_equals_reuse_off", "reuse on with the threshold at %d points vs reuse off" % mid, tol, rhs_threshold=mid)
 
 
 CHECKS = {"C17": C17}
